@@ -288,9 +288,13 @@ def sortPaths : List Path → List Path
   | [] => []
   | p :: r => insertPath p (sortPaths r)
 
-/-- the changed paths accepted by the matcher, in path order -/
+def dedupPaths : List Path → List Path
+  | [] => []
+  | p :: r => if p ∈ r then dedupPaths r else p :: dedupPaths r
+
+/-- the changed paths accepted by the matcher, in path order (each path once) -/
 def diffSorted (old new : Tree) (m : Path → Bool) : List DiffEntry :=
-  ((sortPaths (old.map (·.1) ++ new.map (·.1))).filter
+  ((sortPaths (dedupPaths (old.map (·.1) ++ new.map (·.1)))).filter
       (fun p => m p && get old p ≠ get new p)).map
     (fun p => { path := p, before := get old p, after := get new p })
 
